@@ -93,6 +93,7 @@ type FuncSpec struct {
 	Defines   []Clause // history-predicate definitions: assumed at call sites, not proved (listed)
 	Effects   []GhostEffect // ghost assignments executed at exit (history variables)
 	Relies      []RelyClause // interference invariants re-assumed after a blocking call returns
+	Befores     []RelyClause // call-site obligations: must hold whenever the named callee is called
 	Unreachable []string    // return sites declared dead under the contract assumptions (must be vacuous)
 	PanicEns  []Clause // ensures that must hold if the function panics out (rare)
 	Modifies  []string
@@ -308,6 +309,12 @@ func (p *parser) parseExpr() (Expr, error) {
 				triggers = append(triggers, t)
 				if p.isOp(",") {
 					p.pos++
+					continue
+				}
+				if p.isOp("@") {
+					// a further @ starts an alternative pattern
+					p.pos++
+					triggers = append(triggers, nil)
 					continue
 				}
 				break
@@ -560,6 +567,10 @@ func (p *parser) parsePostfix() (Expr, error) {
 }
 
 func (p *parser) parsePrimary() (Expr, error) {
+	if p.isIdent("forall") || p.isIdent("exists") {
+		// a quantifier in operand position extends as far to the right as possible
+		return p.parseExpr()
+	}
 	t := p.next()
 	switch t.kind {
 	case "ident":
@@ -590,7 +601,7 @@ var clauseKeywords = map[string]bool{
 	"func": true, "iface": true, "field": true, "extern": true, "pure": true, "predicate": true, "ghost": true, "axiom": true,
 	"lockinv": true, "protected": true, "chaninv": true, "atomic": true,
 	"requires": true, "ensures": true, "defines": true, "assumes": true, "modifies": true, "decreases": true, "loop": true, "invariant": true,
-	"effect": true, "unreachable": true, "rely": true, "inline": true, "maypanic": true, "nopanic": true, "trusted": true, "stepinv": true, "props": true, "function": true,
+	"effect": true, "unreachable": true, "rely": true, "before": true, "inline": true, "maypanic": true, "nopanic": true, "trusted": true, "stepinv": true, "props": true, "function": true,
 }
 
 type rawLine struct {
@@ -720,6 +731,19 @@ func parseSpecFile(path, pkg string) (*SpecFile, error) {
 				return nil, fail(l, "%v", err)
 			}
 			cur.Relies = append(cur.Relies, RelyClause{Callee: strings.TrimSpace(r[:k]), Clause: Clause{Name: "rely", Expr: e, Src: r, File: base, Line: l.line}})
+		case "before":
+			// before Callee [tags] name: expr  -- call-site obligation: expr holds whenever the function
+			// under contract calls Callee (ordering properties such as "stored before announced")
+			if cur == nil {
+				return nil, fail(l, "before outside func")
+			}
+			callee, rem := splitKw(rest)
+			tags, name, exprSrc := splitTagsName(rem)
+			e, err := parseExprString(exprSrc)
+			if err != nil {
+				return nil, fail(l, "%v", err)
+			}
+			cur.Befores = append(cur.Befores, RelyClause{Callee: callee, Clause: Clause{Tags: tags, Name: name, Expr: e, Src: exprSrc, File: base, Line: l.line}})
 		case "unreachable":
 			// unreachable return1, return2 : reason  -- return sites dead under the contract assumptions
 			if cur == nil {
